@@ -79,6 +79,12 @@ CHECKS = {
         text="Random regex ASTs (literals incl. every metacharacter, '.', bracket sets with ranges and negation, groups, alternation, * + ? and intervals) are rendered into emacs, posix-basic, ed, sed, posix-extended and grep syntax using only the operators each syntax defines, placed under 8 -regextype scoping shapes (plain, default, inside parentheses, after a closed parenthesis, type inside parentheses, two types in one expression, overridden, negated), and applied to paths sampled from the AST and mutated (proper prefixes, extensions, substitutions, case changes). Quick ~24k ASTs / ~1.5M judged (pattern, path) pairs plus ~1000 binary runs.",
         note="Known finding first-match-shorter-than-path (known_findings.json) is matched by exact mechanism signature; pairs on which Oniguruma gives up (diagnosed on stderr) are out of domain; no back-references, anchors or classes; paths without newline.",
         ref="DESIGN.md section 4 C17"),
+    "C13": dict(
+        technique="runtime monitoring: stat-record oracle (os.lstat/os.stat/os.readlink per follow rule) over labelled test batches evaluated by the real find (in-process find_main + binary sample) on a sandbox with every file type",
+        level="exploration",
+        text="Per worker one sandbox with every creatable type (regular, directory, fifo, socket, char/block device), links to each, link chains, dangling links, hard-link groups 1-6, 64 (quick) / 4096 (thorough) permission values, 25 owner/group combinations; 22 starting points so that links of every kind occur at depth 0, 1 and deeper; ~2200 (quick) distinct (mode, test) pairs over -type/-xtype, -perm exact/-/ in octal, 0-octal and symbolic spellings of the same mode, -links/-inum/-uid/-gid N/+N/-N, -user/-group by name and number, -empty, -samefile, -lname/-ilname under -P/-H/-L: ~700k (entry, test, mode) evaluations, of which ~8k are ones where the link's and the target's record give different answers.",
+        note="ELOOP links, X in symbolic modes, -nouser/-nogroup and symbolic links as -samefile reference are not judged; tmpfs; runs as root (mknod/chown).",
+        ref="DESIGN.md section 4 C13"),
     "C19": dict(
         technique="runtime monitoring: scripted recorder outcomes, exit status and number of invocations started vs the documented function; bounded-exhaustive over outcome classes",
         level="exploration",
